@@ -72,6 +72,7 @@ def run_shards(argv_fn, total, nworkers=None, env=None, first_index=0, hang_s=12
                 inflight = None
                 phase = None
                 step = None
+                refstate = None
                 partial = None
                 reported = set()
                 q = queue.Queue()
@@ -98,6 +99,7 @@ def run_shards(argv_fn, total, nworkers=None, env=None, first_index=0, hang_s=12
                         inflight = rec["begin"]
                         phase = rec.get("phase")
                         step = rec.get("step")
+                        refstate = rec.get("refstate")
                         partial = None
                         continue
                     if "partial" in rec:
@@ -116,7 +118,7 @@ def run_shards(argv_fn, total, nworkers=None, env=None, first_index=0, hang_s=12
                     with lock:
                         stats["hangs"] += 1
                 if inflight is not None and inflight not in reported:
-                    rec = {"run": inflight, "verdict": "died", "exit": rc, "hung": hung, "stderr": _clip(err), "phase": phase, "step": step}
+                    rec = {"run": inflight, "verdict": "died", "exit": rc, "hung": hung, "stderr": _clip(err), "phase": phase, "step": step, "refstate": refstate}
                     if partial:
                         rec["spec"] = partial.get("spec")
                         rec["trace"] = partial.get("trace")
